@@ -1296,7 +1296,11 @@ vbi_decode_caption(vbi_decoder *vbi, int line, uint8_t *buf)
 				cc->xds = (c1 != XDS_END);
 				goto finish;
 			} else if (c1 <= 0x1F) {
+				/* XDS resumes with a start or continue code,
+				   a terminator alone must not end the
+				   interrupted packet. */
 				cc->xds = FALSE;
+				cc->curr_sp = NULL;
 			} else if (cc->xds) {
 				xds_separator(vbi, buf);
 				goto finish;
